@@ -207,6 +207,23 @@ def oracle_c08(cid, impl, m):
     return True
 
 
+def oracle_c13(cid, impl, m):
+    """No panic, no 5xx / Internal; malformed requests are client errors; state unchanged
+    on error; the answer class is one the classification model allows for the cell."""
+    if "classes" not in m:
+        return None
+    c = impl.get("class", "")
+    if c == "panic":
+        return ("c13-panic", "the handler panicked")
+    if c.startswith("server"):
+        return ("c13-server-error", f"answered {c}")
+    if c not in m["classes"].split(","):
+        return ("c13-class", f"answered {c}, the handler model allows {m['classes']}")
+    if impl.get("changed_on_error") != "0":
+        return ("c13-state-changed", "stored state changed although the request was answered with an error")
+    return True
+
+
 ENGINE_RULE = ("configs from an OPL-shaped grammar (1-4 namespaces, related relations with plain and SubjectSet types, "
                "permissions over includes/permits/traverse/!/&&/||, rendered to OPL and loaded through the real parser, "
                "or legacy namespaces without relations), 0-54 tuples biased to declared relations, chains, cycles, duplicates; "
@@ -214,6 +231,15 @@ ENGINE_RULE = ("configs from an OPL-shaped grammar (1-4 namespaces, related rela
                "distinct = distinct protocol lines")
 
 PROPS = {
+    "C13": {
+        "lean_module": "Keto.Props.C13",
+        "theorems": ["Keto.HT.C13_no_server_no_panic", "Keto.HT.C13_cells_nonempty", "Keto.HT.C13_malformed_rejected",
+                     "Keto.HT.C13_table_functional"],
+        "streams": [{"name": "hfuzz", "n": {"quick": 2500, "thorough": 25000}, "oracle": oracle_c13, "thorough_seeds": 3}],
+        "rule": "every applicable (endpoint, mutation) cell of 19 REST/gRPC endpoints x 25 mutation kinds (unknown namespace, no/both subjects, null body, null element, wrong JSON types, negative/huge/non-numeric max-depth and page_size, bad token, empty/70 kB/non-UTF-8 strings, truncated/empty body, extra fields, absent proto sub-messages, unknown action, oversized batch, wrong method, missing namespace) with random concrete instances against the real routers (httptest, with recover) and gRPC handler methods; table dumps before/after; non-trivial = mutation other than 'valid'",
+        "partial": "the model is a finite classification (endpoint x mutation kind -> allowed answer classes), not a model of JSON/HTTP decoding; it is validated against the real handlers on every run",
+        "assumptions": ["negroni/httprouter, net/http, encoding/json and grpc are exercised, not modelled"],
+    },
     "C08": {
         "lean_module": "Keto.Props.C08",
         "theorems": ["Keto.H.C08_agree", "Keto.H.C08_engine_results_ok", "Keto.H.C08_mirror_status",
